@@ -6,9 +6,12 @@ package inject
 import (
 	corev1 "k8s.io/api/core/v1"
 	metav1 "k8s.io/apimachinery/pkg/apis/meta/v1"
+	"k8s.io/apimachinery/pkg/runtime"
 	"k8s.io/apimachinery/pkg/types"
 
 	meshconfig "istio.io/api/mesh/v1alpha1"
+	"istio.io/istio/pilot/pkg/model"
+	"istio.io/istio/pkg/kube"
 )
 
 // VerifInjectRequired exposes injectRequired.
@@ -37,4 +40,16 @@ func VerifInjectPod(pod *corev1.Pod, ns *corev1.Namespace, cfg *Config, values V
 		injectedAnnotations: cfg.InjectedAnnotations,
 	}
 	return injectPod(params)
+}
+
+// VerifWebhookDecide sends an AdmissionReview for podJSON (admitted into reqNamespace) through
+// Webhook.inject with the given settings and reports whether a patch was produced.
+func VerifWebhookDecide(cfg *Config, values ValuesConfig, mesh *meshconfig.MeshConfig, podJSON []byte, reqNamespace string) (allowed, injected bool) {
+	env := &model.Environment{}
+	env.SetPushContext(&model.PushContext{ProxyConfigs: &model.ProxyConfigs{}})
+	wh := &Webhook{Config: cfg, meshConfig: mesh, env: env, valuesConfig: values, revision: "default"}
+	resp := wh.inject(&kube.AdmissionReview{
+		Request: &kube.AdmissionRequest{Namespace: reqNamespace, Object: runtime.RawExtension{Raw: podJSON}},
+	}, "")
+	return resp.Allowed, len(resp.Patch) > 0
 }
